@@ -247,6 +247,27 @@ class Ctx:
 # --------------------------------------------------------------------------------------
 # Hypothesis driver
 # --------------------------------------------------------------------------------------
+_span_mutation_off = [False]
+
+
+def _no_span_mutation():
+    """Hypothesis follows every novel example with 'mutations' that copy spans of it.  For the
+    composite cases used here (tuples of scalars, messages, arms) that makes a third to two
+    thirds of all generated cases near-duplicates of their predecessor (measured: 72 distinct
+    secret keys in 300 cases; 275 with the step disabled), which wastes the case budget of the
+    expensive oracles.  The step is an internal of the pinned hypothesis 6.168 engine; if the
+    attribute is absent nothing is changed."""
+    if _span_mutation_off[0]:
+        return
+    _span_mutation_off[0] = True
+    try:
+        from hypothesis.internal.conjecture import engine
+        if hasattr(engine.ConjectureRunner, "generate_mutations_from"):
+            engine.ConjectureRunner.generate_mutations_from = lambda self, data: None
+    except Exception:  # noqa
+        pass
+
+
 def drive(ctx, name, strategy, body, max_examples, examples=(), shrink=True):
     """Run body(case) on the explicit examples (plain calls, every seed) and then on
     max_examples Hypothesis-generated cases with a seed derived from VERIF_SEED."""
@@ -257,6 +278,7 @@ def drive(ctx, name, strategy, body, max_examples, examples=(), shrink=True):
         body(ex)
     if max_examples <= 0:
         return
+    _no_span_mutation()
     phases = [Phase.generate] + ([Phase.shrink] if shrink else [])
 
     @hypothesis.seed(ctx.seed_for(name))
